@@ -18,6 +18,11 @@ DRIFT = {"A": (1.0, 0.5), "B": (-1.5, 1.0), "C": (0.5, -2.0)}
 FAST_BASE = {"A": (50.0, 60.0), "B": (50.0, 160.0), "C": (50.0, 260.0)}
 FAST_STEP = (30.0, 0.0)
 
+# "diag" scenario (C10, IoU scoring only): diagonal neighbours - boxes (12x14) separated along BOTH axes by 17 px, all
+# drifting by (1, 0.5) px/frame; centre distance 42 px
+DIAG_BASE = {"A": (50.0, 60.0), "B": (79.0, 91.0), "C": (108.0, 122.0)}
+DIAG_STEP = (1.0, 0.5)
+
 _SKEL = None
 
 
@@ -37,6 +42,9 @@ def make_instance(animal, frame, drift=False, score=0.9, nan=None):
     if drift == "fast":
         bx, by = FAST_BASE[animal]
         bx, by = bx + FAST_STEP[0] * frame, by + FAST_STEP[1] * frame
+    elif drift == "diag":
+        bx, by = DIAG_BASE[animal]
+        bx, by = bx + DIAG_STEP[0] * frame, by + DIAG_STEP[1] * frame
     else:
         bx, by = BASE[animal]
         if drift:
@@ -56,10 +64,16 @@ _XS = [(BASE[a][0] + 6.0, a) for a in ANIMALS]
 
 
 _YS = [(FAST_BASE[a][1] + 5.0, a) for a in ANIMALS]
+_DXS = [(DIAG_BASE[a][0] + 6.0, a) for a in ANIMALS]
 MODE = {"fast": False}
 
 
 def which_animal(feat):
+    if MODE["fast"] == "diag":
+        x = float(np.asarray(feat).flat[0])  # x within [-6, +8] of base+6 for <= 8 frames; bases 29 px apart in x
+        if x != x:
+            return "?"
+        return min(_DXS, key=lambda t: abs(t[0] - x))[1]
     if MODE["fast"]:
         y = float(np.asarray(feat).flat[1])
         if y != y:
